@@ -19,7 +19,14 @@ are representable in the type.  Results are compared as BIT PATTERNS of the resu
 the same i1) and must lie in xDSL's own documented signless range [-2^(w-1), 2^w)
 (xdsl.utils.comparisons.signless_value_range).  Inputs on which refsem yields POISON / UB are excluded.
 
+(b') "recursive": progen.recursive_recipes -- bounded (depth <= 7) direct and mutual recursion in multi-block cf
+    form and scf.if form; every activation reads values it defined BEFORE the recursive call AFTER it returns.
+(c) "index_width": ONE module, two Interpreter instances with index_bitwidth 64 then 32 (and 32 then 64) in one
+    process, same logical operands (wrap-around, slt, index_cast to i64, muli), each compared with refsem at
+    the matching width (a fixed table plus generated index/i64 programs).
+
 Recipes:
+  {"kind": "index_width", "order": [64, 32], ...progen recipe..., optional "vecs": [[signed ints]]}
   {"kind": "op", "op": "arith.addi", "pred": int | "-", "ty": "i8", "to": null | "i32", "ib": 32|64,
    "args": [unsigned bit patterns / float bit patterns]}
   {"kind": "program", ...progen recipe...}
@@ -47,9 +54,14 @@ RULE = ("(a) one-op functions for every arith op / cmpi, cmpf predicate run thro
         "and against xDSL's signless range [-2^(w-1), 2^w); inputs on which refsem yields POISON/UB (also for an "
         "unused intermediate) are excluded and counted. A wrong program result is attributed to the first op "
         "that disagrees with refsem on the interpreter's own operands, else to the control-flow op where the two "
-        "execution traces diverge. Non-trivial: an integer operand/result has its top bit set, a float "
+        "execution traces diverge. (b') recursive programs (progen.recursive_recipes): direct/mutual recursion "
+        "bounded by a clamped counter, cf three-block and scf.if forms, values defined before the recursive call "
+        "read after it. (c) one module run on two Interpreter instances with index_bitwidth 64/32 in both orders "
+        "in one process (table of wrap-around/slt/index_cast/muli operands + generated index/i64 programs), each "
+        "compared with refsem at the matching width. Non-trivial: an integer operand/result has its top bit set, a float "
         "operand/result is NaN/inf/-0.0/subnormal or the exact result needs rounding; programs: same over "
-        "arguments and results, or a loop body executed at least once.")
+        "arguments and results, or a loop body executed at least once; recursive: at least one recursive call; "
+        "index_width: the reference results differ between the two widths.")
 ASSUMPTIONS = ["vt.refsem implements the MLIR arith/scf/cf/func semantics (self-test table of 188 hand-computed cases "
                "is run once per process)",
                "the interpreter's canonical input form for signless integers is the signed value "
@@ -783,6 +795,15 @@ def run_program(h, recipe, label):
         nt = bool(ref.trips and max(ref.trips) >= 1)
         for v, t in zip(list(vec) + list(ref.values), atys + rtys):
             nt = nt or (_float_special(v, t) if _is_f(t) else _top_bit(v, t, ib))
+        if label.startswith("recursive") and vec and not _is_f(atys[0]):
+            depth = int(vec[0]) & 7          # the driver clamps the counter to 0..7
+            nt = depth >= 1
+            h.count("recursion_depth>=2" if depth >= 2 else "recursion_depth_%d" % depth)
+            for f_ in recipe.get("funcs") or []:
+                if isinstance(f_.get("rec"), dict):
+                    h.count("rec_form_" + str(f_["rec"].get("form")))
+            if sum(1 for f_ in recipe.get("funcs") or [] if isinstance(f_.get("rec"), dict)) > 1:
+                h.count("rec_mutual")
         case_recipe = dict(recipe, inputs=list(recipe.get("inputs") or []))
         want_sample = vi == 0 and nt and len(h.samples) < 6 and not h._shrinking
         h.case(case_recipe, nt, label=label,
@@ -818,6 +839,109 @@ def run_program(h, recipe, label):
         return
 
 
+def recursive_recipes(ib: int):
+    """Bounded (mutual) recursion, cf and scf form; signed predicates only (F-C15-1 is shallow)."""
+    return progen.recursive_recipes(program_features(True, ib)).map(_steer).map(
+        lambda r: dict(r, kind="program"))
+
+
+# ---------------------------------------------------------------------------------------------
+# (c) one module, two interpreters with different index_bitwidth in ONE process
+# ---------------------------------------------------------------------------------------------
+
+# sum = a + b; prod = b * a; i64(sum); i64(prod); sum <s 0          (refs count backwards from the latest value)
+_IW_FUNC = {"args": ["index", "index"],
+            "body": [{"op": "addi", "t": "index", "a": 1, "b": 0},
+                     {"op": "muli", "t": "index", "a": 1, "b": 2},
+                     {"op": "index_cast", "from": "index", "to": "i64", "a": 1},
+                     {"op": "index_cast", "from": "index", "to": "i64", "a": 0},
+                     {"op": "const", "t": "index", "v": 0},
+                     {"op": "cmpi", "t": "index", "p": 2, "a": 2, "b": 0}],
+            "ret": [["index", 2], ["index", 1], ["i64", 1], ["i64", 0], ["i1", 0]]}
+_IW_VECS = [[0x7FFFFFFF, 1], [65536, 65536], [-0x80000000, -1], [0x7FFFFFFF, 0x7FFFFFFF], [46341, 46341],
+            [-0x80000000, -0x80000000], [3, 4], [0x40000000, 2], [-1, -1], [0x7FFFFFFF, 2]]
+
+
+def index_width_table():
+    return [{"kind": "index_width", "order": list(o), "funcs": [_IW_FUNC], "vecs": [v], "ib": 32, "inputs": []}
+            for o in ((64, 32), (32, 64)) for v in _IW_VECS]
+
+
+def index_width_recipes():
+    f = dict(program_features(True, 32), int_types=["index", "i64"], float_types=[], max_funcs=1)
+    return st.tuples(progen.program_recipes(f).map(_steer), st.sampled_from([[64, 32], [32, 64]])).map(
+        lambda p: dict(p[0], kind="index_width", order=p[1]))
+
+
+def run_index_width(h, recipe, label, distinct=False):
+    """The SAME module on two Interpreter instances with different index_bitwidth, one after the other in this
+    process; each run is compared with refsem at the matching index width."""
+    from xdsl.utils.exceptions import InterpretationError
+    _init()
+    module = progen.build(dict(recipe, ib=32))          # index constants fit 32 bits: valid at both widths
+    name, fr = progen.entry(recipe)
+    atys, rtys = progen.signature(fr)
+    order = [32 if o == 32 else 64 for o in (recipe.get("order") or [64, 32])][:2]
+    if len(order) < 2 or order[0] == order[1]:
+        order = [64, 32] if not order or order[0] == 64 else [32, 64]
+    if recipe.get("vecs"):
+        vecs = [tuple(v) for v in recipe["vecs"] if isinstance(v, list) and len(v) == len(atys)]
+    else:
+        vecs = progen.input_vectors(fr, 4, recipe.get("inputs"), 32)
+    for vec in vecs:
+        # the same logical operands for both widths: index operands are signed 32-bit values
+        logical = [float(v) if _is_f(t) else
+                   (refsem.to_signed(int(v), 32) if t == "index" else refsem.to_signed(int(v), refsem.int_width(t)))
+                   for v, t in zip(vec, atys)]
+        refs = {ib: refsem.run_function(module, name, tuple(logical), index_bits=ib, fuel=20000) for ib in (32, 64)}
+        if any(not r.defined or r.npoison for r in refs.values()):
+            h.exclude("index_width_poison_or_ub")
+            continue
+
+        def signed(vals, ib):
+            return [v if _is_f(t) else refsem.to_signed(v, refsem.int_width(t, ib)) for v, t in zip(vals, rtys)]
+        nt = signed(refs[32].values, 32) != signed(refs[64].values, 64)
+        case_recipe = dict(recipe, inputs=list(recipe.get("inputs") or []))
+        h.case(case_recipe, nt, label=label, distinct=distinct)
+        if nt:
+            h.count("index_width_results_differ_between_widths")
+        for pos, ib in enumerate(order):
+            it = new_interpreter(module, ib)
+            iargs = tuple(logical)
+            crash, got = None, None
+            try:
+                got = it.call_op(name, iargs)
+            except InterpretationError as e:
+                if _not_implemented(e):
+                    h.discard("index_width_not_implemented")
+                    return
+                crash = e
+            except Exception as e:
+                crash = e
+            bad = None
+            if crash is not None:
+                bad = ("crash:" + type(crash).__name__, f"raised {crash!r:.300}")
+            elif len(got) != len(rtys):
+                bad = ("result_count", f"{got!r}")
+            else:
+                for g, x, t in zip(got, refs[ib].values, rtys):
+                    b = check_value(g, x, t, ib)
+                    if b is not None:
+                        bad = (b[0], f"result {g!r}, MLIR semantics at {ib}-bit index: bit pattern {x!r} of type {t}")
+                        break
+            if bad is None:
+                continue
+            loc = _localise(module, name, iargs, ib)
+            sig = {"check": "index_width", "order": "-".join(map(str, order)), "run": f"{pos + 1}:ib{ib}",
+                   "kind": bad[0], "op": loc[0]["op"] if loc else "unlocated",
+                   "op_kind": loc[0]["kind"] if loc else "-"}
+            h.mismatch(sig, case_recipe,
+                       f"one module, interpreters with index_bitwidth {order} in this order; run {pos + 1} "
+                       f"(index_bitwidth={ib}) @{name}{iargs}: {bad[1]}; {loc[1] if loc else ''}\n"
+                       + progen.render(module)[:2000])
+            return
+
+
 # ---------------------------------------------------------------------------------------------
 # entry points
 # ---------------------------------------------------------------------------------------------
@@ -825,8 +949,11 @@ def run_program(h, recipe, label):
 def replay(h, recipe):
     _init()
     with quiet():
-        if "funcs" in recipe:
-            run_program(h, recipe, "replay")
+        if "funcs" in recipe and "order" in recipe:
+            run_index_width(h, recipe, "replay")
+        elif "funcs" in recipe:
+            run_program(h, recipe, "recursive_replay" if any(
+                isinstance(f, dict) and isinstance(f.get("rec"), dict) for f in recipe["funcs"]) else "replay")
         else:
             run_op_recipe(h, recipe, "replay")
 
@@ -847,3 +974,13 @@ def checks(h):
             n = h.scale(300, 3000) if ib == 64 else h.scale(120, 1000)
             lab = ("program_steered" if steered else "program") + ("_ib32" if ib == 32 else "")
             h.hyp(lab, program_recipes(steered, ib), lambda r, lab=lab: run_program(h, r, lab), n, 10 + salt)
+        if "func.call" in ok:
+            h.hyp("recursive", recursive_recipes(64), lambda r: run_program(h, r, "recursive"),
+                  h.scale(120, 1500), 20)
+            h.hyp("recursive_ib32", recursive_recipes(32), lambda r: run_program(h, r, "recursive_ib32"),
+                  h.scale(40, 500), 21)
+        for i, r in enumerate(index_width_table()):
+            if i % h.nshards == h.shard:
+                run_index_width(h, r, "index_width_table", distinct=True)
+        h.hyp("index_width", index_width_recipes(), lambda r: run_index_width(h, r, "index_width"),
+              h.scale(80, 1000), 22)
